@@ -611,5 +611,67 @@ Proof.
   destruct ax as [m|m n].
   - destruct (is_int m); [apply U1; auto|].
     destruct m; try apply BC.
-    destruct p; cbn; auto; try (apply U1; auto; fail); try apply U3; try apply U2.
+    destruct p; cbn [fst]; auto; try (apply U1; auto; fail); try apply U3; try apply U2.
+  - destruct (is_slice m).
+    + destruct (is_slice n).
+      * destruct (negb (is_open m) && is_open n); [apply U1; auto | apply BC].
+      * destruct p; cbn [fst]; auto; try (destruct (is_int n)); try (apply U1; exact I); try apply U2; try apply U3.
+    + destruct (is_int m); [apply U1; auto|].
+      destruct (is_slice n).
+      * destruct p; cbn [fst]; auto; try (apply U1; auto; fail); try apply U2; try apply U3.
+      * destruct (is_int n).
+        -- destruct p; cbn [fst]; auto.
+           ++ apply upd_rows_Forall; auto. intros; now apply dset_wf.
+           ++ apply upd_rows2_Forall; auto. intros; now apply dset_wf.
+        -- destruct p; cbn [fst]; auto.
+           ++ apply upd_rows2_Forall; auto. intros; now apply dset_wf.
+           ++ apply upd_rows2_Forall; auto. intros; now apply dset_wf.
+Qed.
+
+(* ------------------------------------------------------------------ one operation, then every history *)
+Lemma store_wf_app s o : store_wf s -> owf o -> store_wf (s ++ [o]).
+Proof. intros. apply Forall_app; split; auto. Qed.
+Lemma store_wf_set s i o : store_wf s -> owf o -> store_wf (set_obj s i o).
+Proof. intros. now apply Forall_upd. Qed.
+Lemma with_vec_wf x v x' : vwf v -> with_vec x v = Ok x' -> owf x'.
+Proof. destruct x, v; cbn; intros Hv H; inversion H; subst; cbn; auto. Qed.
+Lemma with_rows_wf x l x' : Forall vwf l -> with_rows x l = Ok x' -> owf x'.
+Proof.
+  intros Hl H. destruct x; cbn in H; try discriminate.
+  - destruct (all_F l) eqn:E; inversion H; subst. cbn. eapply all_F_wf; eauto.
+  - destruct (all_B l); inversion H; subst. exact I.
+Qed.
+Lemma vec_of_obj_wf x v : owf x -> vec_of_obj x = Some v -> vwf v.
+Proof. destruct x; cbn; intros Hx H; inversion H; subst; cbn; auto. Qed.
+Lemma wf_neg_bits (b : bits) : wf (map (fun x : bool => if x then Some (-(1)) else None) b).
+Proof. apply wf_map_any. intros [|]; cbn; auto. lra. Qed.
+
+Ltac bindinv H :=
+  repeat match type of H with
+         | (do _ <- ?m; _) = Ok _ => let E := fresh "E" in destruct m eqn:E; cbn [bind] in H; [|discriminate H]
+         end.
+
+Lemma step_res_wf s o s' r : store_wf s -> step_res false s o = Ok (s', r) -> store_wf s'.
+Proof.
+  intros Hs H. destruct o; cbn [step_res] in H.
+  - (* OBin *)
+    bindinv H. okinv. apply store_wf_app; auto.
+    pose proof (getobj_wf _ _ _ Hs E) as Hx. pose proof (resolve_pwf _ _ _ Hs E0) as Hp.
+    destruct (vec_of_obj a0) eqn:V.
+    + eapply vector_bin_wf; [|exact Hp|exact E1]. eapply vec_of_obj_wf; eauto.
+    + eapply array_bin_wf; [|exact Hp|exact E1]. now apply rows_of_wf.
+  - (* OIBin *)
+    bindinv H.
+    pose proof (getobj_wf _ _ _ Hs E) as Hx. pose proof (resolve_pwf _ _ _ Hs E0) as Hp.
+    destruct (vec_of_obj a0) eqn:V.
+    + pose proof (vec_of_obj_wf _ _ Hx V) as Hv.
+      destruct (is_ro a0); [discriminate|].
+      assert (G : forall al p v' x', pwf p -> vec_ibin false o al v p = Ok v' -> with_vec a0 v' = Ok x' ->
+                                     store_wf (set_obj s i x')).
+      { intros al p v' x' Hp' Hi Hw. apply store_wf_set; auto. eapply with_vec_wf; [|exact Hw]. eapply vec_ibin_wf; eauto. }
+      destruct v as [c|b]; [|destruct o as [[]| |]; try discriminate];
+        (destruct a1 as [c1|b1|rows|rows|q isb|l isb|m isb];
+         try (destruct rows as [|r0 [|r1 rows]]); try discriminate;
+         bindinv H; okinv; eapply G; try eassumption; cbn; auto;
+         try (inversion Hp; subst; assumption)).
     Show.
